@@ -586,12 +586,21 @@ class Factory:
             result["errors"] += project_validation_errors
         # With PEP 621 [tool.poetry] is not mandatory anymore. We still create and
         # validate it so that default values (e.g. for package-mode) are set.
-        tool_poetry = toml_data.setdefault("tool", {}).setdefault("poetry", {})
+        tool = toml_data.setdefault("tool", {})
+        if not isinstance(tool, dict):
+            result["errors"].append("tool must be object")
+            return result
+        tool_poetry = tool.setdefault("poetry", {})
         tool_poetry_validation_errors = [
-            e.replace("data.", "tool.poetry.")
+            e.replace("data.", "tool.poetry.").replace("data ", "tool.poetry ")
             for e in validate_object(tool_poetry, "poetry-schema")
         ]
         result["errors"] += tool_poetry_validation_errors
+        if result["errors"] and not (
+            isinstance(tool_poetry, dict) and isinstance(project or {}, dict)
+        ):
+            # the checks below require tables
+            return result
 
         # Check for required fields if package mode.
         # In non-package mode, there are no required fields.
